@@ -158,13 +158,35 @@ fn secret_mode() {
 // ------------------------------------------------------------------------------------------- mpp
 #[derive(Default)]
 struct Obs {
-	/// (channel, htlc id, amount, expiry, skimmed_fee_msat of the update_add_htlc)
-	adds: Vec<(usize, u64, u64, u32, u64)>,
+	/// (channel, htlc id, amount, expiry, skimmed_fee_msat of the update_add_htlc, payment-hash index)
+	adds: Vec<(usize, u64, u64, u32, u64, usize)>,
 	fulfills: Vec<(usize, u64)>,
 	fails: Vec<(usize, u64)>,
-	/// (amount, claim deadline, counterparty_skimmed_fee_msat)
-	claimable: Vec<(u64, i64, u64)>,
-	claimed: Vec<(u64, Vec<(usize, u64, u32)>)>,
+	/// (amount, claim deadline, counterparty_skimmed_fee_msat, payment-hash index, purpose: 0 invoice
+	/// | 1 keysend, the purpose's preimage hashes to the payment hash: 1 | 0 | -1 no preimage)
+	claimable: Vec<(u64, i64, u64, usize, u8, i8)>,
+	claimed: Vec<(u64, Vec<(usize, u64, u32)>, usize)>,
+	/// update_fulfill_htlc messages (of any node) whose preimage does not hash to the HTLC's payment hash
+	bad_fulfills: usize,
+}
+
+/// Payment hashes in order of first appearance (their index is what the records name), the hash of
+/// every HTLC offered to any node, and the preimage named by the last keysend PaymentClaimable.
+#[derive(Default)]
+struct Reg {
+	hashes: Vec<PaymentHash>,
+	htlc_hash: std::collections::HashMap<(usize, usize, u64), PaymentHash>,
+	last_keysend: Option<(usize, lightning::types::payment::PaymentPreimage)>,
+}
+
+impl Reg {
+	fn idx(&mut self, h: &PaymentHash) -> usize {
+		if let Some(i) = self.hashes.iter().position(|x| x == h) {
+			return i;
+		}
+		self.hashes.push(*h);
+		self.hashes.len() - 1
+	}
 }
 
 fn idx_of(nodes: &[Node], pk: &PublicKey) -> Option<usize> {
@@ -180,7 +202,7 @@ fn chan_idx(chans: &[ChannelId], c: &ChannelId) -> usize {
 static PENDING_SKIM: std::sync::atomic::AtomicI64 = std::sync::atomic::AtomicI64::new(0);
 
 /// Delivers all pending messages; records what goes to / comes from the recipient (node 3).
-fn pump(nodes: &[Node], chans: &[ChannelId], obs: &mut Obs) {
+fn pump(nodes: &[Node], chans: &[ChannelId], obs: &mut Obs, reg: &mut Reg) {
 	let mut idle = 0;
 	for _round in 0..200 {
 		let mut progressed = false;
@@ -202,12 +224,21 @@ fn pump(nodes: &[Node], chans: &[ChannelId], obs: &mut Obs) {
 				match ev {
 					MessageSendEvent::UpdateHTLCs { updates, channel_id, .. } => {
 						for m in updates.update_add_htlcs.iter() {
+							reg.htlc_hash.insert((to, chan_idx(chans, &channel_id), m.htlc_id), m.payment_hash);
 							if to == 3 {
-								obs.adds.push((chan_idx(chans, &channel_id), m.htlc_id, m.amount_msat, m.cltv_expiry, m.skimmed_fee_msat.unwrap_or(0)));
+								let hidx = reg.idx(&m.payment_hash);
+								obs.adds.push((chan_idx(chans, &channel_id), m.htlc_id, m.amount_msat, m.cltv_expiry, m.skimmed_fee_msat.unwrap_or(0), hidx));
 							}
 							n.handle_update_add_htlc(from, m);
 						}
 						for m in updates.update_fulfill_htlcs.iter() {
+							// whoever fulfils an HTLC must name a preimage of ITS payment hash
+							use bitcoin::hashes::Hash;
+							let want = reg.htlc_hash.get(&(i, chan_idx(chans, &channel_id), m.htlc_id));
+							let got = bitcoin::hashes::sha256::Hash::hash(&m.payment_preimage.0).to_byte_array();
+							if want.map(|h| h.0 != got).unwrap_or(true) {
+								obs.bad_fulfills += 1;
+							}
 							if i == 3 {
 								obs.fulfills.push((chan_idx(chans, &channel_id), m.htlc_id));
 							}
@@ -252,16 +283,35 @@ fn pump(nodes: &[Node], chans: &[ChannelId], obs: &mut Obs) {
 			if i == 3 {
 				for e in evs {
 					match e {
-						Event::PaymentClaimable { amount_msat, claim_deadline, counterparty_skimmed_fee_msat, .. } => {
-							obs.claimable.push((amount_msat, claim_deadline.map(|d| d as i64).unwrap_or(-1), counterparty_skimmed_fee_msat));
+						Event::PaymentClaimable { amount_msat, claim_deadline, counterparty_skimmed_fee_msat, payment_hash, purpose, .. } => {
+							use bitcoin::hashes::Hash;
+							let hidx = reg.idx(&payment_hash);
+							let kind = if matches!(purpose, lightning::events::PaymentPurpose::SpontaneousPayment(_)) { 1 } else { 0 };
+							let pre_ok = match purpose.preimage() {
+								Some(p) => {
+									if bitcoin::hashes::sha256::Hash::hash(&p.0).to_byte_array() == payment_hash.0 {
+										1
+									} else {
+										0
+									}
+								},
+								None => -1,
+							};
+							if kind == 1 {
+								if let Some(p) = purpose.preimage() {
+									reg.last_keysend = Some((hidx, p));
+								}
+							}
+							obs.claimable.push((amount_msat, claim_deadline.map(|d| d as i64).unwrap_or(-1), counterparty_skimmed_fee_msat, hidx, kind, pre_ok));
 						},
-						Event::PaymentClaimed { amount_msat, htlcs, .. } => {
+						Event::PaymentClaimed { amount_msat, htlcs, payment_hash, .. } => {
+							let hidx = reg.idx(&payment_hash);
 							let mut hs: Vec<(usize, u64, u32)> = htlcs
 								.iter()
 								.map(|h| (chan_idx(chans, &h.channel_id), h.value_msat, h.cltv_expiry))
 								.collect();
 							hs.sort();
-							obs.claimed.push((amount_msat, hs));
+							obs.claimed.push((amount_msat, hs, hidx));
 						},
 						_ => {},
 					}
@@ -305,8 +355,24 @@ fn mpp_mode(style: u64, underpay: bool) {
 	let c13 = create_announced_chan_between_nodes(&nodes, 1, 3);
 	let c23 = create_announced_chan_between_nodes(&nodes, 2, 3);
 	let chans = vec![c01.2, c02.2, c13.2, c23.2];
+	// every node on the same height: an HTLC sent with final CLTV delta d expires at height + 1 + d
+	let top = nodes.iter().map(|nd| nd.best_block_info().1).max().unwrap();
+	for nd in nodes.iter() {
+		let h = nd.best_block_info().1;
+		if h < top {
+			connect_blocks(nd, top - h);
+		}
+	}
 	let mut obs = Obs::default();
-	pump(&nodes, &chans, &mut obs);
+	let mut reg = Reg::default();
+	// index 0 is reserved (the model names the invoice's payment hash 1)
+	reg.hashes.push(PaymentHash([0xff; 32]));
+	pump(&nodes, &chans, &mut obs, &mut reg);
+	// the highest block time every node has seen (a ChannelManager starts with the genesis block's)
+	let genesis_time = bitcoin::constants::genesis_block(bitcoin::Network::Testnet).header.time as u64;
+	let mut now: u64 = genesis_time;
+	let mut ks_no: u8 = 0;
+	let mut last_ks: Option<(PaymentHash, lightning::types::payment::PaymentPreimage)> = None;
 
 	let mut hash = PaymentHash([0; 32]);
 	let mut preimage = None;
@@ -315,8 +381,10 @@ fn mpp_mode(style: u64, underpay: bool) {
 	// expiries of the HTLCs offered to the recipient so far, in order
 	let mut seen_cltv: Vec<u32> = Vec::new();
 	// the HTLCs the recipient holds, and those it held when it last reported PaymentClaimable
-	let mut held: std::collections::BTreeSet<(usize, u64)> = std::collections::BTreeSet::new();
-	let mut announced: Option<std::collections::BTreeSet<(usize, u64)>> = None;
+	// (per payment-hash index)
+	let mut held: std::collections::BTreeMap<usize, std::collections::BTreeSet<(usize, u64)>> = Default::default();
+	let mut announced: std::collections::BTreeMap<usize, std::collections::BTreeSet<(usize, u64)>> = Default::default();
+	let mut htlc_hidx: std::collections::HashMap<(usize, u64), usize> = Default::default();
 	let stdin = io::stdin();
 	let stdout = io::stdout();
 	let mut out = stdout.lock();
@@ -330,15 +398,18 @@ fn mpp_mode(style: u64, underpay: bool) {
 		let mut note = String::new();
 		// claim_funds for a set that was never announced by PaymentClaimable is API misuse (the library
 		// forgets the held HTLCs): such a claim command is skipped and reported as such
-		let claim_ok = !held.is_empty() && announced.as_ref().map(|a| held.is_subset(a)).unwrap_or(false);
+		let claim_hidx = if t[0] == "claimks" { reg.last_keysend.map(|x| x.0).unwrap_or(usize::MAX) } else { 1 };
+		let claim_ok = held.get(&claim_hidx).map(|h| !h.is_empty() && announced.get(&claim_hidx).map(|a| h.is_subset(a)).unwrap_or(false)).unwrap_or(false);
 		let mut skipped = false;
 		let r = panic::catch_unwind(AssertUnwindSafe(|| match t[0] {
 			"invoice" => {
+				let expiry_secs: u32 = t.get(3).and_then(|x| x.parse().ok()).unwrap_or(7200);
 				let (h, s, _) = nodes[3]
 					.node
-					.create_inbound_payment(opt_u64(t[1]), 7200, opt_u16(t[2]), None)
+					.create_inbound_payment(opt_u64(t[1]), expiry_secs, opt_u16(t[2]), None)
 					.unwrap();
 				hash = h;
+				let _ = reg.idx(&h);
 				secret = s;
 				preimage = nodes[3].node.get_payment_preimage_decrypt_metadata(h, s, None).ok();
 			},
@@ -349,6 +420,8 @@ fn mpp_mode(style: u64, underpay: bool) {
 				let extra: u32 = t[4].parse().unwrap();
 				let flipped = t[5] != "0";
 				let skim: Option<i64> = t.get(6).and_then(|x| x.parse().ok());
+				// d=<n>: the final hop's CLTV delta exactly (the HTLC expires at sender height + 1 + n)
+				let exact_delta: Option<u32> = t.iter().skip(6).find_map(|x| x.strip_prefix("d=").and_then(|v| v.parse().ok()));
 				let pp = PaymentParameters::from_node_id(nodes[3].node.get_our_node_id(), TEST_FINAL_CLTV + extra)
 					.with_bolt11_features(nodes[3].node.bolt11_invoice_features())
 					.unwrap();
@@ -372,6 +445,13 @@ fn mpp_mode(style: u64, underpay: bool) {
 					&[7u8; 32],
 				)
 				.unwrap();
+				if let Some(d) = exact_delta {
+					for path in route.paths.iter_mut() {
+						if let Some(last) = path.hops.last_mut() {
+							last.cltv_expiry_delta = d;
+						}
+					}
+				}
 				if let Some(sk) = skim {
 					// the last hop goes over the forwarder's intercept scid: it decides what it forwards
 					let scid = nodes[via].node.get_intercept_scid();
@@ -389,6 +469,101 @@ fn mpp_mode(style: u64, underpay: bool) {
 				part_no += 1;
 				let onion = RecipientOnionFields::secret_only(s, total);
 				nodes[0].node.send_payment_with_route(route, hash, onion, PaymentId([part_no; 32])).unwrap();
+			},
+			"keysend" => {
+				// keysend <via> <amt> <kind> <secret> [<total>] [d=<n>]
+				//   kind: 0 the preimage hashes to the payment hash | 1 it does not (the hash is that of another
+				//   random preimage) | 2 it does not: the payment hash is the registered invoice's | 3 the same
+				//   (hash, preimage) as the previous keysend command (a further part)
+				//   secret: 0 no payment_data | 1 a random payment secret | 2 the registered invoice's secret
+				use bitcoin::hashes::Hash;
+				let via: usize = t[1].parse().unwrap();
+				let amt: u64 = t[2].parse().unwrap();
+				let kind: u8 = t[3].parse().unwrap();
+				let sflag: u8 = t[4].parse().unwrap();
+				let total: u64 = t.get(5).and_then(|x| x.parse().ok()).unwrap_or(amt);
+				let exact_delta: Option<u32> = t.iter().skip(5).find_map(|x| x.strip_prefix("d=").and_then(|v| v.parse().ok()));
+				ks_no += 1;
+				let fresh = |tag: u8| lightning::types::payment::PaymentPreimage([tag; 32]);
+				let (ph, pre) = match kind {
+					0 => {
+						let p = fresh(ks_no);
+						(PaymentHash(bitcoin::hashes::sha256::Hash::hash(&p.0).to_byte_array()), p)
+					},
+					1 => {
+						let q = fresh(ks_no ^ 0x80);
+						(PaymentHash(bitcoin::hashes::sha256::Hash::hash(&q.0).to_byte_array()), fresh(ks_no))
+					},
+					2 => (hash, fresh(ks_no)),
+					_ => last_ks.unwrap_or((hash, fresh(ks_no))),
+				};
+				last_ks = Some((ph, pre));
+				let _ = reg.idx(&ph);
+				let onion = match sflag {
+					0 => RecipientOnionFields::spontaneous_empty(total),
+					1 => RecipientOnionFields::secret_only(PaymentSecret([0x55; 32]), total),
+					_ => RecipientOnionFields::secret_only(secret, total),
+				};
+				let pp = PaymentParameters::from_node_id(nodes[3].node.get_our_node_id(), TEST_FINAL_CLTV)
+					.with_bolt11_features(nodes[3].node.bolt11_invoice_features())
+					.unwrap();
+				let mut rp = RouteParameters::from_payment_params_and_value(pp, amt);
+				rp.max_total_routing_fee_msat = None;
+				let first = nodes[0]
+					.node
+					.list_usable_channels()
+					.into_iter()
+					.find(|c| c.counterparty.node_id == nodes[via].node.get_our_node_id())
+					.unwrap();
+				let scorer = lightning::util::test_utils::TestScorer::new();
+				let mut route = lightning::routing::router::find_route(
+					&nodes[0].node.get_our_node_id(),
+					&rp,
+					&nodes[0].network_graph,
+					Some(&[&first]),
+					nodes[0].logger,
+					&scorer,
+					&Default::default(),
+					&[7u8; 32],
+				)
+				.unwrap();
+				if let Some(d) = exact_delta {
+					for path in route.paths.iter_mut() {
+						if let Some(last) = path.hops.last_mut() {
+							last.cltv_expiry_delta = d;
+						}
+					}
+				}
+				part_no += 1;
+				lightning::ln::channelmanager::verif_hooks_keysend::send_with_keysend_preimage(
+					&*nodes[0].node,
+					&route,
+					ph,
+					onion,
+					Some(pre),
+					PaymentId([part_no; 32]),
+				)
+				.unwrap();
+			},
+			"time" => {
+				// one block whose header time is the genesis block's + <n> on every node: the
+				// ChannelManagers' highest_seen_timestamp becomes max(old, that)
+				let d: u64 = t[1].parse().unwrap();
+				let tm = genesis_time + d;
+				for node in nodes.iter() {
+					let block = create_dummy_block(node.best_block_hash(), tm as u32, Vec::new());
+					connect_block(node, &block);
+				}
+				if tm > now {
+					now = tm;
+				}
+			},
+			"claimks" => {
+				if !claim_ok {
+					skipped = true;
+				} else if let Some((_, p)) = reg.last_keysend {
+					nodes[3].node.claim_funds(p)
+				}
 			},
 			"tick" => nodes[3].node.timer_tick_occurred(),
 			"block" => {
@@ -439,19 +614,24 @@ fn mpp_mode(style: u64, underpay: bool) {
 				"panic".to_string()
 			};
 		}
-		let r2 = panic::catch_unwind(AssertUnwindSafe(|| pump(&nodes, &chans, &mut obs)));
+		let r2 = panic::catch_unwind(AssertUnwindSafe(|| pump(&nodes, &chans, &mut obs, &mut reg)));
 		for a in obs.adds.iter() {
 			seen_cltv.push(a.3);
-			held.insert((a.0, a.1));
+			held.entry(a.5).or_default().insert((a.0, a.1));
+			htlc_hidx.insert((a.0, a.1), a.5);
 		}
 		for f in obs.fails.iter().chain(obs.fulfills.iter()) {
-			held.remove(f);
+			if let Some(hx) = htlc_hidx.get(f) {
+				if let Some(set) = held.get_mut(hx) {
+					set.remove(f);
+				}
+			}
 		}
-		if !obs.claimable.is_empty() {
-			announced = Some(held.clone());
+		for c in obs.claimable.iter() {
+			announced.insert(c.3, held.get(&c.3).cloned().unwrap_or_default());
 		}
-		if (t[0] == "claim" || t[0] == "claimknown" || t[0] == "failback") && !skipped {
-			announced = None;
+		if (t[0] == "claim" || t[0] == "claimknown" || t[0] == "claimks" || t[0] == "failback") && !skipped {
+			announced.remove(&claim_hidx);
 		}
 		if r2.is_err() && note.is_empty() {
 			note = "panic while delivering messages".to_string();
@@ -459,25 +639,28 @@ fn mpp_mode(style: u64, underpay: bool) {
 		let claimed: Vec<String> = obs
 			.claimed
 			.iter()
-			.map(|(a, hs)| {
+			.map(|(a, hs, hx)| {
 				format!(
-					"[{},[{}]]",
+					"[{},[{}],{}]",
 					a,
-					hs.iter().map(|(c, v, x)| format!("[{},{},{}]", c, v, x)).collect::<Vec<_>>().join(",")
+					hs.iter().map(|(c, v, x)| format!("[{},{},{}]", c, v, x)).collect::<Vec<_>>().join(","),
+					hx
 				)
 			})
 			.collect();
 		writeln!(
 			out,
-			"{{\"c04\":1,\"cmd\":\"{}\",\"height\":{},\"adds\":{},\"fulfills\":{},\"fails\":{},\"claimable\":{},\"claimed\":{},\"skipped\":{},\"panic\":\"{}\"}}",
+			"{{\"c04\":1,\"cmd\":\"{}\",\"height\":{},\"adds\":{},\"fulfills\":{},\"fails\":{},\"claimable\":{},\"claimed\":{},\"skipped\":{},\"now\":{},\"badfulfill\":{},\"panic\":\"{}\"}}",
 			line.trim(),
 			nodes[3].best_block_info().1,
-			jl(&obs.adds.iter().map(|(c, h, a, x, sk)| format!("[{},{},{},{},{}]", c, h, a, x, sk)).collect::<Vec<_>>()),
+			jl(&obs.adds.iter().map(|(c, h, a, x, sk, hx)| format!("[{},{},{},{},{},{}]", c, h, a, x, sk, hx)).collect::<Vec<_>>()),
 			jl(&obs.fulfills.iter().map(|(c, h)| format!("[{},{}]", c, h)).collect::<Vec<_>>()),
 			jl(&obs.fails.iter().map(|(c, h)| format!("[{},{}]", c, h)).collect::<Vec<_>>()),
-			jl(&obs.claimable.iter().map(|(a, d, sk)| format!("[{},{},{}]", a, d, sk)).collect::<Vec<_>>()),
+			jl(&obs.claimable.iter().map(|(a, d, sk, hx, k, ok)| format!("[{},{},{},{},{},{}]", a, d, sk, hx, k, ok)).collect::<Vec<_>>()),
 			jl(&claimed),
 			if skipped { 1 } else { 0 },
+			now - genesis_time,
+			obs.bad_fulfills,
 			note.replace('"', "'").replace('\n', " ")
 		)
 		.unwrap();
